@@ -99,6 +99,17 @@ add("C18", ["v_derive_arith"], ["older_", "fam_older_", "fam_packed_"],
     level_text="For histories with AbiRemoved/added fields: the version-n definition writing version k produces exactly the version-k definition's bytes for the projected value and the version-k definition reads it back (all values); packed decision sound at every older version.",
     level_note="Bounded over definitions. Enum variants absent at k not covered.",
     technique="Kani contract harnesses over generated histories", trusted_base=TB)
+import native_run
+nreg = native_run.registry()
+P["C12"] = dict(level="exploration", verus=[], kani=[], kani_thorough=[], native=sorted(n for n in nreg if "C12" in nreg[n]["props"]),
+    level_text="BOUNDED, not a proof: for every member of the container family, a version-gated enum and a set of library containers, an independent reader driven only by get_schema::<T>(v) parses the bytes of every small-scope value completely and finds no recursion markers -- executed natively on the real code (small-scope enumeration). Neither verifier reaches this property: CBMC does not terminate on schema construction (String/Vec/Box heavy), and the derive output is outside Verus' subset.",
+    level_note="Bounded over definitions and over values (small domains per draw). Three library types are known findings (Result, HashMap/IndexMap guard, SocketAddr).",
+    technique="bounded stand-in: native small-scope enumeration with an independent schema-driven reader (no deductive proof available)", trusted_base=["rustc"],
+    explanation="bounded stand-in only")
+P["C15"] = dict(level="proof", verus=["v_diff"], kani=[], kani_thorough=[], native=["ledger_compat", "pairs_diff"],
+    level_text="Partly proved, partly bounded: the type comparison the ledger relies on (diff_schema <==> wire_equiv, incl. the Fn/FnMut arm) is proved by Verus for all schema trees; AbiTraitDefinition::verify_backward_compatible is checked against an independent compatibility statement by native small-scope enumeration (BOUNDED: one recorded method, <= 2 arguments, async flag, presence).",
+    level_note="verify_compatiblity's file handling and the definition codec at data version 2 are not under contract (two genuine defects there were found by demonstration and fixed). The method-matching loop uses iterator closures outside Verus' subset.",
+    technique="Verus contract on diff_schema + bounded native enumeration of verify_backward_compatible", trusted_base=TB)
 P["C05"]["native"] = ["pairs_diff"]
 P["C13"]["native"] = ["pairs_diff"]
 P["C11"]["native"] = ["pairs_layout"]
